@@ -78,6 +78,30 @@ func main() {
 			os.Exit(1)
 		}
 		os.Exit(0)
+	case "replaytest":
+		// run the replay registered for an obligation name against the current tree (no solver)
+		o := &Obligation{Name: pos[0]}
+		for _, rb := range replayBuilders {
+			if rb.re.MatchString(o.Name) {
+				pkg, src, ok := rb.fn(nil, o, map[string]string{}, "")
+				if !ok {
+					fmt.Println("builder needs a model")
+					os.Exit(2)
+				}
+				work := filepath.Join(verifDir, ".work", "replaytest")
+				defer os.RemoveAll(work)
+				out, confirmed := runReplayTest(pkg, src, work)
+				fmt.Println(out)
+				fmt.Println("confirmed:", confirmed)
+				os.RemoveAll(work)
+				if confirmed {
+					os.Exit(1)
+				}
+				os.Exit(0)
+			}
+		}
+		fmt.Println("no replay builder for", o.Name)
+		os.Exit(2)
 	case "func":
 		if len(pos) != 1 {
 			usage()
